@@ -236,3 +236,75 @@ def run_dot_root(run, P, units=('coap_uri.c',)):
                               'advanced while *%s": a ".." at the root of the path deletes an option that was in the chain before (Uri-Port after Uri-Host)'
                               % (f['name'], fn, vn, vn, short(bad['e'])[:60] if bad else 'nothing', vn), [])
     run.require(n >= 1 or run.fixture_mode or run.cfg != 'base', 'R-URI-CLASS(dot-dot): no call of a list-trimming helper with a local position found (expected coap_path_into_optlist -> backup_optlist)')
+
+
+def run_default_ports(run, P, table='coap_uri_scheme', fname='coap_uri_into_optlist'):
+    """R-URI-CLASS (default ports agree): the splitter takes a scheme's default port from the table `coap_uri_scheme[]`; the converter to
+    options decides with its own switch whether the port is the default (no Uri-Port option) or not.  The two must agree for every scheme:
+    at every comparison of uri->port in the converter, each scheme that can reach it (the case labels of the switch, as interval facts on
+    uri->scheme) has, in the table, exactly the constant it is compared with -- or, where the port is compared with the computed
+    CoAP default (secure ? 5684 : 5683), one of those two.  A scheme that falls out of its case group is compared with 5683: its explicit
+    port 5683 is dropped (the next hop reconstructs 80) and its real default gets a superfluous option."""
+    from core.psts import Env, solve, relevance, apply_generic
+    run.rule('R-URI-CLASS')
+    g = P.globals.get(table)
+    if not g or not P.has(fname):
+        run.require(run.fixture_mode or run.cfg != 'base', 'R-URI-CLASS(default ports): table %s or function %s() not found' % (table, fname))
+        return
+    rows = {}
+    init = strip(g.get('init'))
+    for r in (init or {}).get('a') or ():
+        r = strip(r)
+        cells = [const_int(c) for c in (r.get('a') or ())]
+        ints = [c for c in cells if c is not None]
+        if len(ints) >= 3:
+            rows[ints[-1]] = ints[0]            # scheme enumerator (last cell) -> port (first integer cell)
+    run.require(len(rows) >= 4, 'R-URI-CLASS(default ports): could not read scheme/port rows from %s[]' % table)
+    coap_defaults = {P.const_named('COAP_DEFAULT_PORT'), P.const_named('COAPS_DEFAULT_PORT')} - {None}
+    f = P.func(fname)
+    scheme_aps = set()
+    tests = {}
+    for b in f['blocks']:
+        t = b.get('term') or {}
+        c = t.get('cond')
+        if c is None:
+            continue
+        if t.get('c') == 'SwitchStmt':
+            for x in walk(c):
+                if isinstance(x, dict) and x.get('k') == 'mem' and x.get('f') == 'scheme' and ap(x):
+                    scheme_aps.add(ap(x))
+        for x in walk(c):
+            if isinstance(x, dict) and x.get('k') == 'bin' and x.get('op') in ('!=', '=='):
+                for a_, b_ in ((x['l'], x['r']), (x['r'], x['l'])):
+                    a0 = strip(a_)
+                    if isinstance(a0, dict) and a0.get('k') == 'mem' and a0.get('f') == 'port':
+                        tests[b['id']] = (const_int(b_), short(x)[:60], t.get('loc') or f['loc'])
+    run.require((scheme_aps and tests) or run.fixture_mode, 'R-URI-CLASS(default ports): switch on the scheme / port comparisons not found in %s()' % fname)
+    keys, R = relevance(f, lambda ev: False, scheme_aps)
+    keys = set(keys) | set(tests)
+    R = set(R) | scheme_aps
+    rep = set()
+    n = [0]
+
+    def on_branch(b, s, env, ctx):
+        if b['id'] not in tests or s != b['succ'][0]:
+            return env
+        K, txt, loc = tests[b['id']]
+        for sa in scheme_aps:
+            lo, hi, ex = env.intf(sa)
+            for sch, port in sorted(rows.items()):
+                if not (lo <= sch <= hi) or sch in ex:
+                    continue
+                ok = (port == K) if K is not None else (port in coap_defaults)
+                n[0] += 1
+                run.oblige('R-URI-CLASS', ok, '%s:scheme%d:default-port-agrees' % (fname, sch))
+                if not ok and (b['id'], sch) not in rep:
+                    rep.add((b['id'], sch))
+                    run.violation('R-URI-CLASS', fname, loc, 'default-port-disagrees:scheme%d' % sch,
+                                  'scheme %d (default port %d in %s[]) reaches the test `%s`, which takes %s for the default: an explicit port equal to that value is dropped '
+                                  'from the options and the scheme\'s real default port gets a superfluous Uri-Port'
+                                  % (sch, port, table, txt, K if K is not None else 'the CoAP default (%s)' % '/'.join(str(x) for x in sorted(coap_defaults))), ctx.path())
+        return env
+    solve(f, Env(), lambda ev, env, ctx: None, None, keys, R, key_fn=lambda e: tuple(e.intf(a) for a in sorted(scheme_aps)), on_branch=on_branch)
+    run.instance('R-URI-CLASS', '%s: every scheme is compared with its own default port of %s[] (%d scheme/test pairs)' % (fname, table, n[0]))
+    run.require(n[0] >= len(rows) or run.fixture_mode, 'R-URI-CLASS(default ports): fewer scheme/test pairs (%d) than schemes (%d) were judged' % (n[0], len(rows)))
